@@ -11,7 +11,7 @@ def gen_table(r, big):
     fields = []
     for _ in range(nf):
         t = r.choice(TYPES)
-        n = r.choice([0, 0, 0, 2, 3, 5]) if r.random() < 0.35 else 0
+        n = r.choice([0, 0, 1, 1, 2, 3, 5]) if r.random() < 0.4 else 0
         fields.append((t, n))
     key = None
     if r.random() < 0.7:
